@@ -276,35 +276,46 @@ ValueConforms(el, v, j) ==
   ELSE FALSE
 
 RECURSIVE Conforms(_, _)
-ElemConforms(el, j) ==
+(* the element object itself: allowed members, each once, the vr member *)
+ElemHead(el, j) ==
   /\ j.t = "obj"
   /\ \A i \in 1..Len(j.m) : j.m[i].k \in {"vr", "Value", "InlineBinary", "BulkDataURI"}
   /\ \A i, k \in 1..Len(j.m) : j.m[i].k = j.m[k].k => i = k
   /\ Has(j, "vr") /\ IsStrNode(Get(j, "vr"), el.vr)
   /\ ~Has(j, "BulkDataURI")
-  /\ LET n == Len(el.vals) IN
+(* a sequence with as many JSON items as the element has *)
+ItemsFrame(el, j) == /\ el.rep = "items" /\ ~Has(j, "InlineBinary") /\ Has(j, "Value")
+                     /\ Get(j, "Value").t = "arr" /\ Len(Get(j, "Value").a) = Len(el.vals)
+ElemBody(el, j) ==
+  LET n == Len(el.vals) IN
      IF el.rep = "empty" THEN ~Has(j, "Value") /\ ~Has(j, "InlineBinary")
      ELSE IF el.rep = "items" THEN
-          /\ ~Has(j, "InlineBinary")
-          /\ IF n = 0 /\ ~Has(j, "Value") THEN TRUE
-             ELSE /\ Has(j, "Value") /\ Get(j, "Value").t = "arr" /\ Len(Get(j, "Value").a) = n
-                  /\ \A i \in 1..n : Conforms(el.vals[i], Get(j, "Value").a[i])
+          \/ n = 0 /\ ~Has(j, "Value") /\ ~Has(j, "InlineBinary")
+          \/ ItemsFrame(el, j) /\ LET a == Get(j, "Value").a IN \A i \in 1..n : Conforms(el.vals[i], a[i])
      ELSE IF el.vr \in BinVRs THEN
           /\ ~Has(j, "Value") /\ Has(j, "InlineBinary")
           /\ IsStrNode(Get(j, "InlineBinary"), Base64(BytesOf(el)))
      ELSE /\ ~Has(j, "InlineBinary") /\ Has(j, "Value")
-          /\ Get(j, "Value").t = "arr" /\ Len(Get(j, "Value").a) = n
-          /\ \A i \in 1..n : ValueConforms(el, el.vals[i], Get(j, "Value").a[i])
+          /\ LET v == Get(j, "Value") IN
+             /\ v.t = "arr" /\ Len(v.a) = n
+             /\ \A i \in 1..n : ValueConforms(el, el.vals[i], v.a[i])
+ElemConforms(el, j) == ElemHead(el, j) /\ ElemBody(el, j)
 
 KeysConform(s, j) == /\ j.t = "obj" /\ Len(j.m) = Len(s)
                      /\ \A i \in 1..Len(s) : j.m[i].k = Hex8(s[i].g, s[i].e)
 Conforms(ds, j) == LET s == SortByTag(ds) IN
                    KeysConform(s, j) /\ \A i \in 1..Len(s) : ElemConforms(s[i], j.m[i].v)
 
-(* diagnosis: which part of j does not conform (for fingerprints) *)
+(* diagnosis: the VRs of the innermost elements whose rendering does not *)
+(* conform (for fingerprints)                                            *)
+RECURSIVE BadParts(_, _)
+BadElem(el, j) ==
+   IF ~ElemHead(el, j) THEN {el.vr}
+   ELSE IF ItemsFrame(el, j) THEN LET a == Get(j, "Value").a IN UNION {BadParts(el.vals[i], a[i]) : i \in 1..Len(el.vals)}
+   ELSE IF ElemBody(el, j) THEN {} ELSE {el.vr}
 BadParts(ds, j) == LET s == SortByTag(ds) IN
    IF ~KeysConform(s, j) THEN {"keys"}
-   ELSE {s[i].vr : i \in {k \in 1..Len(s) : ~ElemConforms(s[k], j.m[k].v)}}
+   ELSE UNION {BadElem(s[i], j.m[i].v) : i \in 1..Len(s)}
 
 ---------------------------------------------------------------------------
 (* Round trip (C23).                                                       *)
@@ -357,8 +368,13 @@ SameAbsElem(a, b) == /\ a.g = b.g /\ a.e = b.e /\ a.vr = b.vr /\ a.kind = b.kind
 SameAbs(x, y) == Len(x) = Len(y) /\ \A i \in 1..Len(x) : SameAbsElem(x[i], y[i])
 SameDs(a, b) == SameAbs(AbsDs(a), AbsDs(b))
 
-(* diagnosis *)
-DiffVRs(a, b) == LET x == AbsDs(a)  y == AbsDs(b) IN
-   IF Len(x) # Len(y) THEN {"element count"}
-   ELSE {x[i].vr : i \in {k \in 1..Len(x) : ~SameAbsElem(x[k], y[k])}}
+(* diagnosis: VRs of the innermost elements that differ *)
+RECURSIVE DiffAbs(_, _)
+DiffElem(a, b) ==
+   IF SameAbsElem(a, b) THEN {}
+   ELSE IF a.g = b.g /\ a.e = b.e /\ a.kind = "items" /\ b.kind = "items" /\ Len(a.vals) = Len(b.vals)
+        THEN UNION {DiffAbs(a.vals[i], b.vals[i]) : i \in 1..Len(a.vals)}
+   ELSE {a.vr}
+DiffAbs(x, y) == IF Len(x) # Len(y) THEN {"element count"} ELSE UNION {DiffElem(x[i], y[i]) : i \in 1..Len(x)}
+DiffVRs(a, b) == DiffAbs(AbsDs(a), AbsDs(b))
 =============================================================================
